@@ -108,7 +108,8 @@ func (g *Gen) lastMemberKey(a *app.ShutterApp) int {
 }
 
 func (g *Gen) someAddrs(k int) [][]byte {
-	p := g.R.Perm(len(g.U.Addrs))
+	// only the first six keys of the universe ever become keypers; the others are outsiders
+	p := g.R.Perm(6)
 	out := [][]byte{}
 	for i := 0; i < k && i < len(p); i++ {
 		out = append(out, g.U.Addrs[p[i]].Bytes())
@@ -176,12 +177,18 @@ func (g *Gen) eonChoice(a *app.ShutterApp) uint64 {
 }
 
 // NextTx draws one raw transaction.
-func (g *Gen) NextTx(a *app.ShutterApp) ([]byte, string) {
+func (g *Gen) NextTx(a *app.ShutterApp) ([]byte, string) { return g.NextTxBy(a, -1) }
+
+// NextTxBy draws one raw transaction; forced >= 0 fixes the signing key.
+func (g *Gen) NextTxBy(a *app.ShutterApp, forced int) ([]byte, string) {
 	r := g.R
 	chain := g.G.ChainID
 	key := g.memberKey(a)
 	if r.Chance(1, 12) {
 		key = r.Intn(len(g.U.Keys)) // possibly an outsider
+	}
+	if forced >= 0 {
+		key = forced
 	}
 	var m *shmsg.Message
 	note := ""
@@ -189,7 +196,7 @@ func (g *Gen) NextTx(a *app.ShutterApp) ([]byte, string) {
 	switch {
 	case w < 24:
 		m = g.candidate(a)
-		if r.Chance(5, 6) {
+		if r.Chance(5, 6) && forced < 0 {
 			key = g.lastMemberKey(a)
 		}
 		note = "vote"
@@ -275,7 +282,7 @@ func (g *Gen) NextTx(a *app.ShutterApp) ([]byte, string) {
 		m = &shmsg.Message{Payload: &shmsg.Message_Apology{Apology: &shmsg.Apology{Eon: g.eonChoice(a), Accusers: ac, PolyEvals: ev}}}
 		note = "apology"
 	default:
-		if g.NoJunk {
+		if g.NoJunk || forced >= 0 {
 			m = shmsg.NewBlockSeen(0)
 			note = "blockseen"
 			break
